@@ -84,6 +84,18 @@ CLAIMS["C12"] = (
     "Device paths (suffix GPU, on_gpu()/useKernels() guards, gpu acceleration cases) are excluded because the property is stated for the default acceleration mode.",
     "DESIGN.md 4/C12")
 
+CLAIMS["C13"] = (
+    "R-OMP: data-sharing classification of every write in every OpenMP parallel region over the -fopenmp parse (directive tree + captured variables), canonical-order check of critical "
+    "appends, commutativity of atomic/critical combinations, cross-configuration agreement of separately written OpenMP and serial bodies, placement of random draws",
+    "Static rule discharge over 150+ parallel regions (all template instantiations): every write to non-private data is subscripted through the worksharing loop variable, protected by "
+    "critical/atomic, a reduction, or individually justified; containers appended to under critical are sorted/uniqued before use; values combined under atomic/critical are combined "
+    "commutatively; the hand-written OpenMP and serial variants of the same loop make the same guarded calls; the particle-swarm random stream is drawn outside parallel regions. "
+    "These are the structural conditions under which grids (point sets, orders, decisions) cannot depend on the thread count or schedule.",
+    "Numerical equality to rounding is taken from race freedom plus canonical ordering; it is not decided separately (floating-point sums may differ in the last bits, which the property "
+    "allows). The justified-indirect-index list has one entry (FFT lines). An exact tie in Optimizer::computeMaximum would be resolved by arrival order: replayed without any observable "
+    "difference, recorded as a note. Rule D7 was added after seed C13-a was missed.",
+    "DESIGN.md 4/C13")
+
 PENDING = {}
 
 NOT_APPLICABLE = {}
